@@ -66,8 +66,8 @@ type LockAnalysis struct {
 	guarded  map[*types.Var]string // field -> "State.mode"
 	cacheFld map[*types.Var]string // markup cache fields -> name
 	info     map[*ssa.Function]*lockFuncInfo
-	mayLock  map[*ssa.Function]bool // may synchronously reach a Lock of State.m
-	touches  map[*ssa.Function]bool // may synchronously reach a Lock or Unlock
+	mayLock  map[*ssa.Function]bool   // may synchronously reach a Lock of State.m
+	touches  map[*ssa.Function]bool   // may synchronously reach a Lock or Unlock
 	needs    map[*ssa.Function]string // reason the function requires the lock on entry
 	origin   map[*ssa.Function]string // why a function starts with the lock not held
 	summary  map[*ssa.Function]lstate
